@@ -20,7 +20,8 @@ MCUniverse == <<
   Row(T1, "utc",  "eth0", "hA", "id1", "v4b", "v4a", 17, 53,  20, 10, 2, 1),   \* 7  same byte sum as 1, in/out swapped
   Row(T2, "cest", "eth0", "hB", "id1", "v4a", "v4b", 6, 80,   30, 5, 4, 4),    \* 8  instant of 6, other zone, other host
   Row(0,  "-",    "eth0", "hA", "id1", "v4a", "v4b", 6, 80,   10, 20, 1, 2),   \* 9  no time label
-  Row(0,  "-",    "eth0", "hA", "id2", "v4a", "v4b", 6, 80,   10, 20, 1, 2)    \* 10 = 9 but host id
+  Row(0,  "-",    "eth0", "hA", "id2", "v4a", "v4b", 6, 80,   10, 20, 1, 2),   \* 10 = 9 but host id
+  Row(T1, "utc",  "eth1", "hA", "id1", "v6m", "v4b", 6, 80,   10, 20, 1, 2)    \* 11 = 3 but sip is the IPv4-mapped IPv6 form of v4a
 >>
 
 \* quick tier: every key, every direction and both orders occur, not every combination
